@@ -448,6 +448,10 @@ func TestC10(t *testing.T) {
 			seq = append(seq, cb)
 		}
 		c.Max("max_distinct_combinations_in_a_scenario", int64(len(combos)))
+		if strings.HasPrefix(run.Sc.Label, "delay-sweep") {
+			c.SubNT(run.Sc.Label+"|"+run.Sc.Cfg.String()+"|"+strings.Join(seq, ","), len(combos) >= 2)
+			return
+		}
 		c.FP(run.Sc.Cfg.String(), strings.Join(seq, ","))
 		c.Nontrivial(len(combos) >= 2)
 	}
@@ -461,6 +465,16 @@ func TestC10(t *testing.T) {
 		if c.Idx < 40 {
 			c.Sample(sc.Describe())
 		}
+	})
+	// systematic single-delay enumeration (sweep_test.go) over a tenant scenario: every hook hit - in particular
+	// every hit of the point between the shard-map miss and the lock - held back once by each duration; each
+	// re-run's admission history goes through porcupine
+	r.Layer("delay-sweep", e.Pick(12, 160), func(c *vc.Case) {
+		sc := tenantScenario(c, 5)
+		sc.Label = "delay-sweep"
+		delaySweep(t, c, sc, c.R.Uint64(), true, e.Pick(100, 300), e.Pick(20, 100), func(run *Run, err error, label string) {
+			post(c, run, err)
+		})
 	})
 	// racing first arrivals: k callers bring the SAME new combination at the same virtual instant (all of
 	// them miss the lock-free lookup: the hook between the miss and the lock holds them back), then, one
@@ -854,6 +868,22 @@ func TestC18(t *testing.T) {
 			}
 		}
 		c.Sample(map[string]any{"layer": "subset", "contributors": n, "kinds": kinds, "subsets_per_kind": 1<<n - 1})
+	})
+	// systematic single-delay enumeration (sweep_test.go) over traced scenarios with cancellations: which
+	// requests end up in one batch, and whether a cancellation lands before or during an export, changes
+	// with every delayed hit (component-side points only)
+	r.Layer("delay-sweep", e.Pick(12, 160), func(c *vc.Case) {
+		sc := GenScenario(c.R, Profile{Sig: -1, Keys: c.R.IntN(5) == 0, Cancels: true, Fails: c.R.IntN(3) == 0, Tracing: true, HookMode: "none", EarlyReturn: -1, MaxCallers: 5, SharedCtx: true})
+		if sc.Cfg.SendBatchSize < 2 {
+			sc.Cfg.SendBatchSize = uint32(2 + c.R.IntN(6))
+			if sc.Cfg.SendBatchMaxSize != 0 && sc.Cfg.SendBatchMaxSize < sc.Cfg.SendBatchSize {
+				sc.Cfg.SendBatchMaxSize = sc.Cfg.SendBatchSize
+			}
+		}
+		sc.Label = "delay-sweep"
+		delaySweep(t, c, sc, c.R.Uint64(), false, e.Pick(100, 300), e.Pick(20, 100), func(run *Run, err error, label string) {
+			post(c, run, err, label)
+		})
 	})
 	// real goroutines: merges are decided by the scheduler; cancellations land at arbitrary points
 	r.Layer("stress", e.Pick(60, 900), func(c *vc.Case) {
